@@ -21,7 +21,7 @@ func (c15) NumCases(tier string) int {
 	if tier == "thorough" {
 		return 300_000
 	}
-	return 6_000
+	return 40_000
 }
 
 func (c15) Describe() CheckInfo {
